@@ -160,6 +160,10 @@ def run_case(case):
                          exc=type(e).__name__, direction=case["direction"])
                 res.nontrivial = True
                 return res
+        if b.param_max[0] > 6.0:
+            res.labels.append("conditioner_params_beyond_moderate")   # outside the property's 'moderate magnitude' premise
+            res.inconclusive += 1
+            return res
         # dtypes
         for nm, t32, t64 in (("outputs", o32, o64), ("logabsdet", l32, l64)):
             if t32.dtype != torch.float32 or t64.dtype != torch.float64:
@@ -174,10 +178,6 @@ def run_case(case):
             res.fail("nonfinite_float32", site, "float32 result is not finite while float64 is (%s)" % case["direction"],
                      direction="inverse" if inverse else "forward", fam=b.family or "-", cubic_inverse=_cubic_inverse(case["spec"], inverse))
             res.nontrivial = True
-            return res
-        if b.param_max[0] > 6.0:
-            res.labels.append("conditioner_params_beyond_moderate")   # outside the property's 'moderate magnitude' premise
-            res.inconclusive += 1
             return res
         # conditioning probe
         gen = torch.Generator().manual_seed(case["seed"] + 5)
